@@ -323,7 +323,9 @@ def registry(nxt='all', cfg='s1', shape=1, upd='run', data='bytes', cfg2=None):
                      raises={'ValueError': ('iff', refuse)},
                      ensures=dict(post, result='result == self._mac_tag', **CORE), lemmas={'exit': steps},
                      modifies=DIG_MOD, opaque=FMT + ['spec.aead2.ccm_s0', 'spec.aead2.ccm_ctr0', 'spec.aead2.cat', 'spec.aead2.ccm_hdr_len'],
-                     result='bytes', options={'assume_valid': False}))
+                     # implied_ms: the stepwise proof of `split` depends on one slice-bound implication that takes z3 1-3 s here; on the
+                     # harness machine it missed the default 3 s budget and the lemma was left undecided (vp check 3) -- 20 s for this function
+                     result='bytes', options={'assume_valid': False, 'implied_ms': 20000}))
     post = dict(post, **INV)
     reg.add(Contract(C + '.digest', params={},
                      raises={'TypeError': ('iff', '"digest" not in self._next'), 'ValueError': ('iff', '"digest" in self._next and ' + refuse)},
